@@ -311,3 +311,9 @@ void vf_harness(void) {
 )
 calc_tail.thorough_variants = ['NEG', 'POS1', 'POS2', 'POS3', 'POS4']   # together: every day of years 0001..9999 (about 20 min each, run in parallel)
 UNITS += [calc_tail]
+
+# replay: where the trace recipe of a unit does not reproduce (or there is none) the driver's battery runs on the real library: every day of 1582..2400 and every 97th day of
+# years 1..9999 against a linear-search calendar, weekday and h:m:s around 1970 on both sides, ISO texts with 15 zone forms on 6 time stamps
+_bat = replay.battery('C19/driver.cpp', ['battery'])
+for _u in UNITS:
+    _u.replay = replay.first_of(_u.replay, _bat) if _u.replay else _bat
